@@ -6,7 +6,7 @@ from .symexec import Exec, Obligation, Unsupported
 from .contract import REG
 
 
-DEPENDS = {'wordx': ['word'], 'regexp': ['word', 'wordx'], 'tm': ['word', 'wordx'], 'dfa': ['word'], 'nfa': ['word'], 'pda': ['word'], 'cfg': ['word'], 'iso': ['dfa'], 'dfax': ['dfa', 'nfa', 'wordx'], 'subset': ['dfa', 'nfa', 'naming']}
+DEPENDS = {'wordx': ['word'], 'regexp': ['word', 'wordx'], 'tm': ['word', 'wordx'], 'dfa': ['word'], 'nfa': ['word'], 'pda': ['word'], 'cfg': ['word'], 'iso': ['dfa'], 'dfax': ['dfa', 'nfa', 'wordx'], 'nfax': ['nfa', 'word', 'wordx'], 'subset': ['dfa', 'nfa', 'naming']}
 
 
 def theories_of(c):
@@ -47,7 +47,7 @@ def relevant_generated(obl, theory_ax):
     out = []
     for name, f in S.GEN_AXIOMS:
         fs = uf_symbols(f)
-        if fs & syms: out.append(f)
+        if fs and fs <= syms: out.append(f)        # every generated function the axiom talks about occurs (e.g. card-add needs both card and fin)
     return out
 
 
